@@ -14,12 +14,12 @@ import (
 
 // runtime behaviours around a snapshot restore
 const (
-	vsHookOK       = iota // restore/next, (released), runs hook, next
-	vsRestoreError        // restore/next, (released), restore/error(type)
-	vsLegacyError         // restore/next, (released), init/error(type)  (legacy reporting path)
-	vsHookStalls          // restore/next, (released), never returns
-	vsNoRestorePoll       // never polls restore/next: goes straight to next
-	vsExits               // restore/next, (released), exits
+	vsHookOK        = iota // restore/next, (released), runs hook, next
+	vsRestoreError         // restore/next, (released), restore/error(type)
+	vsLegacyError          // restore/next, (released), init/error(type)  (legacy reporting path)
+	vsHookStalls           // restore/next, (released), never returns
+	vsNoRestorePoll        // never polls restore/next: goes straight to next
+	vsExits                // restore/next, (released), exits
 )
 
 // C18: snapshot mode. Init completes when the runtime parks on its restore poll (or on next);
